@@ -8,6 +8,11 @@ CLAIMED = {
    text="parking_lot: every schedule of generated programs over all lock_api operations of RwLock/Mutex (shared/exclusive/upgradable, try_*, upgrade, three downgrades, fair unlocks) vs the lock_api contract model plus a holder/value ledger. dashmap/dashset: programs on two colliding keys incl. guards held across operations vs a plain map with a single reader/writer lock (= linearizability with real-time order). Collections: all histories of length <= 4 (5 thorough) over 19 map / 27 set operations on 3 keys: iteration order identical across instances and processes, contents equal to std, hasher still the fixed one. rand wrapper: every draw under Shuttle's control (model check under the constant data stream + replay from the recorded schedule); lazy_static wrapper: re-initialised per execution (A-then-B pairs).",
    note="Trusted: reference models written from lock_api / dashmap documentation; F7/F8 and the dashmap recursive-read finding are described by weakened models so that only those deviations are attributed to them.",
    design="DESIGN.md §4 C20"),
+ "C19": dict(level="model_checking", engine="c19",
+   technique="E2 families over the real shuttle-tokio implementation crate: stateless exhaustive exploration of every generated program under the explorer-scheduler (incl. a per-program menu for the random draws Notify makes) + explicit-state BFS of reference models written from tokio's documentation + step-by-step co-simulation; recorded findings are encoded as independent weakening bits and a rejected execution is attributed to the smallest set of bits that explains it",
+   text="Every schedule of generated programs (tasks and plain threads) over tokio mpsc bounded(1,2)/unbounded (send/try_send/blocking_send, recv/try_recv/blocking_recv, close, capacity, drops of either end, aborted blocked tasks), oneshot, watch (incl. its value lock), Notify (notified/enable/drop, notify_one, notify_waiters), Mutex/RwLock/Semaphore (owned, blocking, try, downgrade, forget, add_permits, close, zero-permit requests, cancelled queued requests), task::spawn/JoinHandle/AbortHandle/JoinSet, time::timeout with trigger_timeouts, against linearizability-style reference models with real-time order from step stamps; deadlock/panic endings must be endings of the model.",
+   note="Trusted: reference models written from tokio 1.x documentation (sources of tokio 1.53 in the cargo cache consulted for the documented behaviour). Entry points that are unimplemented!() in the wrapper are excluded as the property says; OnceCell, watch::wait_for/subscribe, JoinSet::abort_all are not covered. Small-scope hypothesis.",
+   design="DESIGN.md §4 C19, §11"),
  "C01": dict(level="exploration", engine="e2-replay",
    technique="stateless exhaustive exploration of every program's complete choice tree; each execution is re-executed from the printed form of the schedule the runtime recorded, under a recording wrapper, and compared call by call and log entry by log entry",
    text="For every execution (passing, panicking, deadlocking) of the generated programs of 8 families (incl. shuttle::rand draws served from the seeded data stream): the runtime's recorded schedule equals the independently reconstructed sequence of answered scheduler calls; ReplayScheduler::new_from_encoded(printed string) reproduces every scheduler call, every draw, every operation result (incl. vector clocks) and the same ending; UncontrolledNondeterminismCheckScheduler around the same exploration never complains.",
@@ -129,7 +134,7 @@ def main():
         else:
             na.append({"property_id": i, "reason": REASON_WIP})
     m={"version":1,"setup_cmd":"./setup.sh",
-     "hooks":{"guard":"verif-hooks","enable":"cargo feature `verif-hooks` of shuttle-engine / shuttle-schedulers, enabled by the harness's Cargo.toml (no hook is needed so far: everything uses public API)","baseline_off_cmd":"cd /repo && cargo nextest run --workspace --no-fail-fast --tool-config-file pb:/w/lib/nextest.toml --profile pb --test-threads 8 --offline","source_commits":hooks_commits,"add_only":True},
+     "hooks":{"guard":"verif-hooks","enable":"reserved name only: NO hook or instrumentation commit exists in /repo (source_commits is empty) — every check drives the public API of the crates in /repo's working tree, which the harness links by path; the only commits made to /repo are the unguarded 'fix:' commits listed in known_findings.json","baseline_off_cmd":"cd /repo && cargo nextest run --workspace --no-fail-fast --tool-config-file pb:/w/lib/nextest.toml --profile pb --test-threads 8 --offline","source_commits":hooks_commits,"add_only":True},
      "engines":[
        {"name":"vx","path":"/verif/harness/vx","serves_properties":sorted(CLAIMED.keys()),"kind_free_text":"Rust binary: explorer-as-Scheduler (stateless DFS of the runtime's choice tree), program IR + interpreters, reference models with explicit-state BFS and NFA co-simulation, scheduler-automaton drivers, enumerators"}],
      "checks":checks,
